@@ -255,6 +255,20 @@ class BehavioralRTLIRTypeCheckVisitorL1( bir.BehavioralRTLIRNodeVisitor ):
 
     if node.name not in s.freevars:
       s.freevars[ node.name ] = ( node.obj, t )
+    else:
+      # One constant is declared per name: the same name must not stand
+      # for different objects in different update blocks of a component
+      # (a module-level name of a base class and of a derived class)
+      obj = s.freevars[ node.name ][0]
+      try:
+        same = obj is node.obj or \
+               ( type(obj) is type(node.obj) and bool(obj == node.obj) )
+      except Exception:
+        same = False
+      if not same:
+        raise PyMTLTypeError( s.blk, node.ast,
+          f'free variable {node.name} refers to {node.obj} here but to {obj} '
+          f'in another update block of the same component!' )
 
   def visit_Base( s, node ):
     # Mark this node as having type rt.Component
